@@ -580,7 +580,10 @@ class Num(object):
             if s.ty is float:
                 _site('floor', s)
             return Num('q', s.n / s.d, 1, ty=int, iv=iv_floor(s.iv))
-        return Num('q', z3.ToInt(s.e), 1, ty=int)
+        r_ = Num('q', z3.ToInt(s.e), 1, ty=int)
+        if CUR is not None:
+            CUR.memo.setdefault('rounds', []).append((r_.n, s))
+        return r_
 
     def trunc(s):
         if s.k == 'q':
@@ -590,7 +593,10 @@ class Num(object):
                 _site('trunc', s)
             return Num('q', z3.If(s.n >= 0, s.n / s.d, -((-s.n) / s.d)), 1, ty=int, iv=iv_trunc(s.iv))
         f = z3.ToInt(s.e)
-        return Num('q', z3.If(s.e >= 0, f, -z3.ToInt(-s.e)), 1, ty=int)
+        r_ = Num('q', z3.If(s.e >= 0, f, -z3.ToInt(-s.e)), 1, ty=int)
+        if CUR is not None:
+            CUR.memo.setdefault('rounds', []).append((r_.n, s))
+        return r_
 
     def __floordiv__(s, o):
         o = lift(o)
